@@ -34,6 +34,12 @@ fn id_of(code: u64) -> &'static str {
     }
 }
 
+/// bits of an f64 with every NaN printed as the canonical quiet NaN (sign / payload of a NaN are platform
+/// matters — x86 yields the negative quiet NaN for `0 * inf` — and no decision looks at them)
+fn bits(p: f64) -> u64 {
+    if p.is_nan() { 0x7FF8000000000000 } else { p.to_bits() }
+}
+
 fn tf(b: bool) -> String {
     if b { "t".into() } else { "f".into() }
 }
@@ -83,10 +89,10 @@ impl BugState {
                 // catalogue does not know prints as `?name`)
                 let mut v: Vec<(u64, String)> = self.cfg.probabilities.iter().map(|(k, p)| {
                     let c = self.code_of(k);
-                    (c.parse::<u64>().unwrap_or(u64::MAX), format!("{}:{}", c, p.to_bits()))
+                    (c.parse::<u64>().unwrap_or(u64::MAX), format!("{}:{}", c, bits(*p)))
                 }).collect();
                 v.sort();
-                format!("en={} mult={} probs={}", self.cfg.enabled as u8, self.cfg.global_multiplier.to_bits(), v.into_iter().map(|x| x.1).collect::<Vec<_>>().join(","))
+                format!("en={} mult={} probs={}", self.cfg.enabled as u8, bits(self.cfg.global_multiplier), v.into_iter().map(|x| x.1).collect::<Vec<_>>().join(","))
             }
             "FSET" => {
                 self.cfg.set(id_of(n(1)), f64::from_bits(n(2)));
@@ -104,7 +110,7 @@ impl BugState {
             "FMULT" => {
                 let c = std::mem::replace(&mut self.cfg, FaultConfig::new());
                 self.cfg = c.with_multiplier(f64::from_bits(n(1)));
-                self.cfg.global_multiplier.to_bits().to_string()
+                bits(self.cfg.global_multiplier).to_string()
             }
             "FEN" => {
                 self.cfg.enabled = n(1) == 1;
@@ -115,7 +121,7 @@ impl BugState {
                 if !(p.is_nan() || (0.0..=1.0).contains(&p)) {
                     complaints.push(("C20:buggify:probability-out-of-range".into(), format!("{} -> {}", t.join(" "), p)));
                 }
-                p.to_bits().to_string()
+                bits(p).to_string()
             }
             "FTRIG" => tf(self.cfg.should_trigger(id_of(n(1)), f64::from_bits(n(2)))),
             "FINSTALL" => {
